@@ -518,6 +518,65 @@ pub fn explore_layouts(ctx: &Ctx, version: u16, thorough: bool) -> E2Stats {
     stats
 }
 
+/// Histories that start on a *foreign* file whose sibling trees are genuine red-black trees (every
+/// shape x every fully valid colouring of the chosen contents) - the library itself only ever writes
+/// black nodes, so the relinking / recolouring code of removals is reachable from such files only.
+/// Every removal is followed by every choice of one (thorough: two) further operations that rewrite
+/// remaining entries from memory or remove another one, all in one live session, under the E1
+/// oracles (the caller's deciding classes pick what counts).
+pub fn explore_foreign_trees(ctx: &Ctx, version: u16, thorough: bool) -> E2Stats {
+    let mut stats = E2Stats { files: 0, cases: 0, steps: 0, rb_valid: 0 };
+    for cname in ["three-minis", "four-names", "three-mixed", "four-sizes", "nested"] {
+        let root = content(cname, version).unwrap();
+        let ls: Vec<(Layout, bool)> = layouts(cname, version, false).into_iter().filter(|(l, _)| !l.trees.is_empty()).collect();
+        let paths: Vec<(String, Kind)> = root.all_paths().into_iter().filter(|(p, _)| p != "/").collect();
+        let removals: Vec<Op> = paths.iter().map(|(p, k)| if *k == Kind::Stream { Op::RemoveStream(p.clone()) } else { Op::RemoveStorageAll(p.clone()) }).collect();
+        let mut followers: Vec<Op> = removals.clone();
+        for (p, k) in &paths {
+            if *k == Kind::Stream {
+                followers.push(Op::Append(p.clone(), 3));
+            }
+            followers.push(Op::SetStateBits(p.clone(), 6));
+        }
+        followers.push(Op::CreateStream("/new".into()));
+        stats.files += ls.len() as u64;
+        stats.rb_valid += ls.iter().filter(|l| l.1).count() as u64;
+        let counts: Vec<(u64, u64)> = ls
+            .par_iter()
+            .map(|(layout, rb_valid)| {
+                let c0 = LayoutCase { content: cname.to_string(), layout: layout.clone(), rb_valid: *rb_valid, ops: vec![], patches: vec![], deviation: String::new(), strict_must_reject: false };
+                let mut cases = 0u64;
+                let mut steps = 0u64;
+                let mut seqs: Vec<Vec<Op>> = Vec::new();
+                for r in &removals {
+                    for f in &followers {
+                        seqs.push(vec![r.clone(), f.clone()]);
+                        if thorough || paths.len() <= 3 {
+                            for g in &followers {
+                                seqs.push(vec![r.clone(), f.clone(), g.clone()]);
+                            }
+                        }
+                    }
+                }
+                for s in seqs {
+                    let c = LayoutCase { ops: s, ..c0.clone() };
+                    let p = run_case(&c);
+                    cases += 1;
+                    steps += c.ops.len() as u64;
+                    report(ctx, &c, p);
+                }
+                (cases, steps)
+            })
+            .collect();
+        for (a, b) in counts {
+            stats.cases += a;
+            stats.steps += b;
+        }
+        ctx.note(format!("v{} foreign red-black trees, content {}: files={} removals={} followers={}", version, cname, ls.len(), removals.len(), followers.len()));
+    }
+    stats
+}
+
 // ---------------------------------------------------------------------- //
 // C16: documented deviations
 
@@ -608,7 +667,7 @@ pub fn deviations(bytes: &[u8]) -> Vec<(String, Vec<(usize, Vec<u8>)>, bool)> {
         if e.obj_type == 1 || e.obj_type == 2 {
             // unterminated name: a non-zero unit right after the name
             let nlen = (e.name_len / 2 - 1) as usize;
-            if nlen < 31 {
+            if nlen < 32 {
                 out.push((format!("unterminated name@{}", i), vec![(o + 2 * nlen, 0x41u16.to_le_bytes().to_vec())], true));
             }
         }
